@@ -1,7 +1,517 @@
-//! C16 operations (op names start with `c16.`)
-#[allow(unused_imports)]
+//! C16 — byte / hex / word / primitive conversions (op names start with `c16.`).
+//!
+//! Forwarding forms of one operation (inherent const fn, `Encoding`, `ArrayEncoding`, `ArrayDecoding`,
+//! `From`, trait methods) are all evaluated; if they do not agree the line prints `forms-differ …`
+//! (which no model output equals), otherwise the common value.
+#![allow(clippy::all)]
 use crate::util::*;
+use crypto_bigint::{
+    ArrayDecoding, ArrayEncoding, BoxedUint, ByteArray, Concat, ConcatMixed, Encoding, I64, I128, Int, Limb,
+    NonZero, Odd, Split, SplitMixed, U64, U128, U192, U256, U320, U384, U448, U512, U768, U1024, U2048, Uint,
+    WideWord, Word,
+};
+use std::fmt;
 
-pub fn dispatch(_op: &str, _a: &[&str]) -> Option<String> {
-    None
+fn agree<T: PartialEq + Clone, F: Fn(&T) -> String>(v: Vec<T>, show: F) -> String {
+    if v.iter().all(|x| *x == v[0]) {
+        show(&v[0])
+    } else {
+        format!("forms-differ {}", v.iter().map(|x| show(x)).collect::<Vec<_>>().join("|"))
+    }
+}
+
+fn text(s: &str) -> Option<String> {
+    String::from_utf8(bytes(s)?).ok()
+}
+
+fn words_tok(w: &[Word]) -> String {
+    if w.is_empty() {
+        "-".into()
+    } else {
+        w.iter().map(|x| format!("{x:x}")).collect::<Vec<_>>().join(",")
+    }
+}
+
+fn fmt_kind<T>(kind: &str, v: &T) -> Option<String>
+where
+    T: fmt::LowerHex + fmt::UpperHex + fmt::Display + fmt::Binary + fmt::Debug,
+{
+    Some(match kind {
+        "x" => format!("{v:x}"),
+        "X" => format!("{v:X}"),
+        "d" => format!("{v}"),
+        "b" => format!("{v:b}"),
+        "#x" => format!("{v:#x}"),
+        "#X" => format!("{v:#X}"),
+        "#b" => format!("{v:#b}"),
+        "dbg" => format!("{v:?}"),
+        _ => return None,
+    })
+}
+
+/// forms that need the concrete alias type (inherent `to_*_bytes`, `Encoding::Repr`, hybrid-array, serde)
+trait Forms: Sized {
+    fn enc_be(&self) -> Vec<Vec<u8>>;
+    fn enc_le(&self) -> Vec<Vec<u8>>;
+    /// decoders taking an exactly sized array
+    fn dec_be(b: &[u8]) -> Vec<Self>;
+    fn dec_le(b: &[u8]) -> Vec<Self>;
+    fn nz_be_bytes(b: &[u8]) -> Option<Self>;
+    fn nz_le_bytes(b: &[u8]) -> Option<Self>;
+    /// `None` = the type has no `ArrayEncoding`
+    fn nz_be_arr(b: &[u8]) -> Option<Option<Self>>;
+    fn nz_le_arr(b: &[u8]) -> Option<Option<Self>>;
+    fn ser(&self) -> Vec<u8>;
+    fn de(b: &[u8]) -> Option<Self>;
+}
+
+macro_rules! forms_common {
+    ($t:ty) => {
+        fn nz_be_bytes(b: &[u8]) -> Option<Self> {
+            let r: <$t as Encoding>::Repr = b.try_into().ok()?;
+            Option::<NonZero<$t>>::from(NonZero::<$t>::from_be_bytes(r)).map(|x| x.get())
+        }
+        fn nz_le_bytes(b: &[u8]) -> Option<Self> {
+            let r: <$t as Encoding>::Repr = b.try_into().ok()?;
+            Option::<NonZero<$t>>::from(NonZero::<$t>::from_le_bytes(r)).map(|x| x.get())
+        }
+        fn ser(&self) -> Vec<u8> {
+            bincode::serialize(self).unwrap()
+        }
+        fn de(b: &[u8]) -> Option<Self> {
+            bincode::deserialize::<$t>(b).ok()
+        }
+    };
+}
+
+macro_rules! forms_arr {
+    ($($t:ty),+) => {$(
+        impl Forms for $t {
+            fn enc_be(&self) -> Vec<Vec<u8>> {
+                vec![<$t>::to_be_bytes(self).to_vec(), AsRef::<[u8]>::as_ref(&Encoding::to_be_bytes(self)).to_vec(),
+                     ArrayEncoding::to_be_byte_array(self).to_vec()]
+            }
+            fn enc_le(&self) -> Vec<Vec<u8>> {
+                vec![<$t>::to_le_bytes(self).to_vec(), AsRef::<[u8]>::as_ref(&Encoding::to_le_bytes(self)).to_vec(),
+                     ArrayEncoding::to_le_byte_array(self).to_vec()]
+            }
+            fn dec_be(b: &[u8]) -> Vec<Self> {
+                let r: <$t as Encoding>::Repr = b.try_into().unwrap();
+                let mut a = ByteArray::<$t>::default();
+                a.copy_from_slice(b);
+                vec![<$t as Encoding>::from_be_bytes(r), <$t as ArrayEncoding>::from_be_byte_array(a.clone()),
+                     ArrayDecoding::into_uint_be(a)]
+            }
+            fn dec_le(b: &[u8]) -> Vec<Self> {
+                let r: <$t as Encoding>::Repr = b.try_into().unwrap();
+                let mut a = ByteArray::<$t>::default();
+                a.copy_from_slice(b);
+                vec![<$t as Encoding>::from_le_bytes(r), <$t as ArrayEncoding>::from_le_byte_array(a.clone()),
+                     ArrayDecoding::into_uint_le(a)]
+            }
+            fn nz_be_arr(b: &[u8]) -> Option<Option<Self>> {
+                let mut a = ByteArray::<$t>::default();
+                a.copy_from_slice(b);
+                Some(Option::<NonZero<$t>>::from(NonZero::<$t>::from_be_byte_array(a)).map(|x| x.get()))
+            }
+            fn nz_le_arr(b: &[u8]) -> Option<Option<Self>> {
+                let mut a = ByteArray::<$t>::default();
+                a.copy_from_slice(b);
+                Some(Option::<NonZero<$t>>::from(NonZero::<$t>::from_le_byte_array(a)).map(|x| x.get()))
+            }
+            forms_common!($t);
+        }
+    )+};
+}
+
+macro_rules! forms_noarr {
+    ($($t:ty),+) => {$(
+        impl Forms for $t {
+            fn enc_be(&self) -> Vec<Vec<u8>> {
+                vec![<$t>::to_be_bytes(self).to_vec(), AsRef::<[u8]>::as_ref(&Encoding::to_be_bytes(self)).to_vec()]
+            }
+            fn enc_le(&self) -> Vec<Vec<u8>> {
+                vec![<$t>::to_le_bytes(self).to_vec(), AsRef::<[u8]>::as_ref(&Encoding::to_le_bytes(self)).to_vec()]
+            }
+            fn dec_be(b: &[u8]) -> Vec<Self> {
+                let r: <$t as Encoding>::Repr = b.try_into().unwrap();
+                vec![<$t as Encoding>::from_be_bytes(r)]
+            }
+            fn dec_le(b: &[u8]) -> Vec<Self> {
+                let r: <$t as Encoding>::Repr = b.try_into().unwrap();
+                vec![<$t as Encoding>::from_le_bytes(r)]
+            }
+            fn nz_be_arr(_b: &[u8]) -> Option<Option<Self>> { None }
+            fn nz_le_arr(_b: &[u8]) -> Option<Option<Self>> { None }
+            forms_common!($t);
+        }
+    )+};
+}
+
+forms_arr!(U64, U128, U192, U256, U384, U448, U512, U768, U1024, U2048);
+forms_noarr!(U320);
+
+fn prim(ty: &str, v: &str) -> Option<u128> {
+    if v.is_empty() || v.len() > 32 {
+        return None;
+    }
+    let x = u128::from_str_radix(v, 16).ok()?;
+    let bits = match ty {
+        "u8" | "i8" => 8,
+        "u16" | "i16" => 16,
+        "u32" | "i32" => 32,
+        "u64" | "i64" | "word" => 64,
+        "u128" | "i128" | "wide_word" => 128,
+        _ => return None,
+    };
+    if bits < 128 && x >> bits != 0 {
+        return None;
+    }
+    Some(x)
+}
+
+fn fixed<const N: usize>(op: &str, a: &[&str]) -> Option<String>
+where
+    Uint<N>: Forms,
+{
+    Some(match (op, a) {
+        ("c16.u.to_be_bytes", [v]) => agree(arg!(uint::<N>(v)).enc_be(), |b| bytes_tok(b)),
+        ("c16.u.to_le_bytes", [v]) => agree(arg!(uint::<N>(v)).enc_le(), |b| bytes_tok(b)),
+        ("c16.u.from_be_slice", [b]) => uhex(&Uint::<N>::from_be_slice(&arg!(bytes(b)))),
+        ("c16.u.from_le_slice", [b]) => uhex(&Uint::<N>::from_le_slice(&arg!(bytes(b)))),
+        ("c16.u.from_be_bytes", [b]) => {
+            let b = arg!(bytes(b));
+            if b.len() != 8 * N {
+                return Some(BAD.into());
+            }
+            agree(Uint::<N>::dec_be(&b), |x| uhex(x))
+        }
+        ("c16.u.from_le_bytes", [b]) => {
+            let b = arg!(bytes(b));
+            if b.len() != 8 * N {
+                return Some(BAD.into());
+            }
+            agree(Uint::<N>::dec_le(&b), |x| uhex(x))
+        }
+        ("c16.u.from_be_hex", [t]) => uhex(&Uint::<N>::from_be_hex(&arg!(text(t)))),
+        ("c16.u.from_le_hex", [t]) => uhex(&Uint::<N>::from_le_hex(&arg!(text(t)))),
+        ("c16.i.from_be_hex", [t]) => ihex(&Int::<N>::from_be_hex(&arg!(text(t)))),
+        ("c16.odd.from_be_hex", [t]) => uhex(&Odd::<Uint<N>>::from_be_hex(&arg!(text(t))).get()),
+        ("c16.odd.from_le_hex", [t]) => uhex(&Odd::<Uint<N>>::from_le_hex(&arg!(text(t))).get()),
+        ("c16.nz.from_be_bytes", [b]) => {
+            let b = arg!(bytes(b));
+            if b.len() != 8 * N {
+                return Some(BAD.into());
+            }
+            Uint::<N>::nz_be_bytes(&b).map(|x| uhex(&x)).unwrap_or("none".into())
+        }
+        ("c16.nz.from_le_bytes", [b]) => {
+            let b = arg!(bytes(b));
+            if b.len() != 8 * N {
+                return Some(BAD.into());
+            }
+            Uint::<N>::nz_le_bytes(&b).map(|x| uhex(&x)).unwrap_or("none".into())
+        }
+        ("c16.nz.from_be_byte_array", [b]) => {
+            let b = arg!(bytes(b));
+            if b.len() != 8 * N {
+                return Some(BAD.into());
+            }
+            match Uint::<N>::nz_be_arr(&b) {
+                None => "unsupported-width".into(),
+                Some(r) => r.map(|x| uhex(&x)).unwrap_or("none".into()),
+            }
+        }
+        ("c16.nz.from_le_byte_array", [b]) => {
+            let b = arg!(bytes(b));
+            if b.len() != 8 * N {
+                return Some(BAD.into());
+            }
+            match Uint::<N>::nz_le_arr(&b) {
+                None => "unsupported-width".into(),
+                Some(r) => r.map(|x| uhex(&x)).unwrap_or("none".into()),
+            }
+        }
+        ("c16.u.words", [v]) => {
+            let x = arg!(uint::<N>(v));
+            let w1: [Word; N] = x.to_words();
+            let w2: [Word; N] = *x.as_words();
+            let w3: [Word; N] = x.into();
+            let w4: [Word; N] = *AsRef::<[Word; N]>::as_ref(&x);
+            let l: [Limb; N] = x.into();
+            let w5: [Word; N] = l.map(|l| l.0);
+            let w6: [Word; N] = x.to_limbs().map(|l| l.0);
+            // and back again through every constructor
+            let back = [Uint::<N>::from_words(w1), Uint::<N>::from(w1), Uint::<N>::from(l), Uint::<N>::new(l)];
+            if back.iter().any(|b| *b != x) {
+                return Some("forms-differ from_words".into());
+            }
+            agree(vec![w1, w2, w3, w4, w5, w6], |w| words_tok(w))
+        }
+        ("c16.u.from_prim", [ty, v]) => {
+            let x = arg!(prim(ty, v));
+            let forms: Vec<Uint<N>> = match *ty {
+                "u8" => vec![Uint::<N>::from_u8(x as u8), Uint::<N>::from(x as u8)],
+                "u16" => vec![Uint::<N>::from_u16(x as u16), Uint::<N>::from(x as u16)],
+                "u32" => vec![Uint::<N>::from_u32(x as u32), Uint::<N>::from(x as u32)],
+                "u64" => vec![Uint::<N>::from_u64(x as u64), Uint::<N>::from(x as u64)],
+                "u128" => vec![Uint::<N>::from_u128(x), Uint::<N>::from(x)],
+                "word" => vec![Uint::<N>::from_word(x as Word), Uint::<N>::from(Limb(x as Word))],
+                "wide_word" => vec![Uint::<N>::from_wide_word(x as WideWord)],
+                _ => return Some(BAD.into()),
+            };
+            agree(forms, |x| uhex(x))
+        }
+        ("c16.i.from_prim", [ty, v]) => {
+            let x = arg!(prim(ty, v));
+            let forms: Vec<Int<N>> = match *ty {
+                "i8" => vec![Int::<N>::from_i8(x as u8 as i8), Int::<N>::from(x as u8 as i8)],
+                "i16" => vec![Int::<N>::from_i16(x as u16 as i16), Int::<N>::from(x as u16 as i16)],
+                "i32" => vec![Int::<N>::from_i32(x as u32 as i32), Int::<N>::from(x as u32 as i32)],
+                "i64" => vec![Int::<N>::from_i64(x as u64 as i64), Int::<N>::from(x as u64 as i64)],
+                // `From<i128>` carries a `debug_assert!(LIMBS >= 2)`: the two build profiles differ at N = 1,
+                // so only the inherent constructor is observed here
+                "i128" => vec![Int::<N>::from_i128(x as i128)],
+                _ => return Some(BAD.into()),
+            };
+            agree(forms, |x| ihex(x))
+        }
+        ("c16.u.fmt", [kind, v]) => bytes_tok(arg!(fmt_kind(kind, &arg!(uint::<N>(v)))).as_bytes()),
+        ("c16.i.fmt", [kind, v]) => bytes_tok(arg!(fmt_kind(kind, &arg!(int::<N>(v)))).as_bytes()),
+        ("c16.u.serde_ser", [v]) => bytes_tok(&arg!(uint::<N>(v)).ser()),
+        ("c16.u.serde_de", [b]) => Uint::<N>::de(&arg!(bytes(b))).map(|x| uhex(&x)).unwrap_or("err:serde".into()),
+        ("c16.b.from_uint", [v]) => {
+            let x = arg!(uint::<N>(v));
+            agree(vec![BoxedUint::from(x), BoxedUint::from(&x)], |b| bhexlen(b))
+        }
+        _ => return None,
+    })
+}
+
+// ---------------------------------------------------------------- concat / split
+
+fn concat_op<const L: usize, const H: usize, const O: usize>(lo: &str, hi: &str) -> Option<String>
+where
+    Uint<L>: ConcatMixed<Uint<H>, MixedOutput = Uint<O>>,
+{
+    let (lo, hi) = (arg!(uint::<L>(lo)), arg!(uint::<H>(hi)));
+    let forms: Vec<Uint<O>> = vec![
+        Uint::<L>::concat_mixed(&lo, &hi),
+        ConcatMixed::concat_mixed(&lo, &hi),
+        Uint::<O>::from((lo, hi)),
+        Uint::<O>::from(&(lo, hi)),
+    ];
+    Some(agree(forms, |x| uhex(x)))
+}
+
+fn concat_even<const L: usize, const O: usize>(lo: &str, hi: &str) -> Option<String>
+where
+    Uint<L>: Concat<Output = Uint<O>> + ConcatMixed<Uint<L>, MixedOutput = Uint<O>>,
+{
+    let (lo, hi) = (arg!(uint::<L>(lo)), arg!(uint::<L>(hi)));
+    let forms: Vec<Uint<O>> = vec![
+        lo.concat(&hi),
+        Concat::concat(&lo, &hi),
+        Uint::<L>::concat_mixed(&lo, &hi),
+        ConcatMixed::concat_mixed(&lo, &hi),
+        Uint::<O>::from((lo, hi)),
+    ];
+    Some(agree(forms, |x| uhex(x)))
+}
+
+fn split_op<const I: usize, const L: usize, const H: usize>(x: &str) -> Option<String>
+where
+    Uint<I>: SplitMixed<Uint<L>, Uint<H>>,
+{
+    let x = arg!(uint::<I>(x));
+    let forms: Vec<(Uint<L>, Uint<H>)> =
+        vec![x.split_mixed::<L, H>(), SplitMixed::split_mixed(&x), <(Uint<L>, Uint<H>)>::from(x)];
+    Some(agree(forms, |p| format!("{} {}", uhex(&p.0), uhex(&p.1))))
+}
+
+fn split_even<const I: usize, const O: usize>(x: &str) -> Option<String>
+where
+    Uint<I>: Split<Output = Uint<O>> + SplitMixed<Uint<O>, Uint<O>>,
+{
+    let x = arg!(uint::<I>(x));
+    let forms: Vec<(Uint<O>, Uint<O>)> =
+        vec![x.split(), Split::split(&x), x.split_mixed::<O, O>(), SplitMixed::split_mixed(&x)];
+    Some(agree(forms, |p| format!("{} {}", uhex(&p.0), uhex(&p.1))))
+}
+
+macro_rules! cs_table {
+    (even: [$(($l:literal, $o:literal)),*], mixed: [$(($ml:literal, $mh:literal, $mo:literal)),*]) => {
+        fn concat_dispatch(l: usize, h: usize, lo: &str, hi: &str) -> Option<String> {
+            match (l, h) {
+                $(($l, $l) => concat_even::<$l, $o>(lo, hi),)*
+                $(($ml, $mh) => concat_op::<$ml, $mh, $mo>(lo, hi),)*
+                _ => Some("unsupported-width".into()),
+            }
+        }
+        fn split_dispatch(l: usize, h: usize, x: &str) -> Option<String> {
+            match (l, h) {
+                $(($l, $l) => split_even::<$o, $l>(x),)*
+                $(($ml, $mh) => split_op::<$mo, $ml, $mh>(x),)*
+                _ => Some("unsupported-width".into()),
+            }
+        }
+    };
+}
+
+cs_table! {
+    even: [(1, 2), (2, 4), (3, 6), (4, 8), (8, 16), (16, 32)],
+    mixed: [(2, 1, 3), (1, 2, 3), (3, 1, 4), (1, 3, 4), (4, 1, 5), (1, 4, 5), (3, 2, 5), (2, 3, 5),
+            (5, 1, 6), (1, 5, 6), (4, 2, 6), (2, 4, 6), (7, 1, 8), (1, 7, 8), (5, 3, 8), (3, 5, 8),
+            (15, 1, 16), (1, 15, 16), (9, 7, 16), (7, 9, 16)]
+}
+
+// ---------------------------------------------------------------- resize
+
+fn resize_do<const N: usize, const T: usize>(op: &str, v: &str) -> Option<String> {
+    Some(match op {
+        "c16.u.resize" => {
+            let x = arg!(uint::<N>(v));
+            agree(vec![x.resize::<T>(), Uint::<T>::from(&x)], |r| uhex(r))
+        }
+        "c16.i.resize" => {
+            let x = arg!(int::<N>(v));
+            agree(vec![x.resize::<T>(), Int::<T>::from(&x)], |r| ihex(r))
+        }
+        _ => return None,
+    })
+}
+
+macro_rules! with_t {
+    ($n:literal, $t:expr, $op:expr, $v:expr) => {
+        match $t {
+            1 => resize_do::<$n, 1>($op, $v),
+            2 => resize_do::<$n, 2>($op, $v),
+            3 => resize_do::<$n, 3>($op, $v),
+            4 => resize_do::<$n, 4>($op, $v),
+            5 => resize_do::<$n, 5>($op, $v),
+            8 => resize_do::<$n, 8>($op, $v),
+            16 => resize_do::<$n, 16>($op, $v),
+            _ => Some("unsupported-width".into()),
+        }
+    };
+}
+
+fn resize_dispatch(op: &str, n: usize, t: usize, v: &str) -> Option<String> {
+    match n {
+        1 => with_t!(1, t, op, v),
+        2 => with_t!(2, t, op, v),
+        3 => with_t!(3, t, op, v),
+        4 => with_t!(4, t, op, v),
+        5 => with_t!(5, t, op, v),
+        8 => with_t!(8, t, op, v),
+        16 => with_t!(16, t, op, v),
+        _ => Some("unsupported-width".into()),
+    }
+}
+
+// ---------------------------------------------------------------- boxed
+
+fn boxed_res(r: Result<BoxedUint, crypto_bigint::DecodeError>) -> String {
+    match r {
+        Ok(v) => bhexlen(&v),
+        Err(e) => format!("err:{e:?}"),
+    }
+}
+
+fn boxed_op(op: &str, a: &[&str]) -> Option<String> {
+    Some(match (op, a) {
+        ("c16.b.from_be_slice", [bp, b]) => boxed_res(BoxedUint::from_be_slice(&arg!(bytes(b)), arg!(dec32(bp)))),
+        ("c16.b.from_le_slice", [bp, b]) => boxed_res(BoxedUint::from_le_slice(&arg!(bytes(b)), arg!(dec32(bp)))),
+        ("c16.b.to_be_bytes", [n, v]) => bytes_tok(&arg!(boxed(v, arg!(dec(n)))).to_be_bytes()),
+        ("c16.b.to_le_bytes", [n, v]) => bytes_tok(&arg!(boxed(v, arg!(dec(n)))).to_le_bytes()),
+        ("c16.b.from_be_hex", [bp, t]) => {
+            let r: Option<BoxedUint> = BoxedUint::from_be_hex(&arg!(text(t)), arg!(dec32(bp))).into();
+            r.map(|v| bhexlen(&v)).unwrap_or("none".into())
+        }
+        ("c16.b.fmt", [n, kind, v]) => bytes_tok(arg!(fmt_kind(kind, &arg!(boxed(v, arg!(dec(n)))))).as_bytes()),
+        ("c16.b.widen", [n, v, bp]) => bhexlen(&arg!(boxed(v, arg!(dec(n)))).widen(arg!(dec32(bp)))),
+        ("c16.b.shorten", [n, v, bp]) => bhexlen(&arg!(boxed(v, arg!(dec(n)))).shorten(arg!(dec32(bp)))),
+        ("c16.b.from_prim", [ty, v]) => {
+            let x = arg!(prim(ty, v));
+            let r = match *ty {
+                "u8" => BoxedUint::from(x as u8),
+                "u16" => BoxedUint::from(x as u16),
+                "u32" => BoxedUint::from(x as u32),
+                "u64" => BoxedUint::from(x as u64),
+                "u128" => BoxedUint::from(x),
+                "word" => BoxedUint::from(Limb(x as Word)),
+                _ => return Some(BAD.into()),
+            };
+            bhexlen(&r)
+        }
+        ("c16.b.from_vec", [n, v]) => {
+            let w = arg!(hex_words(v, arg!(dec(n))));
+            let limbs: Vec<Limb> = w.iter().map(|x| Limb(*x)).collect();
+            agree(
+                vec![BoxedUint::from(limbs.clone()), BoxedUint::from(w.clone()), BoxedUint::from(limbs.clone().into_boxed_slice())],
+                |b| bhexlen(b),
+            )
+        }
+        ("c16.b.from_slice", [n, v]) => {
+            let w = arg!(hex_words(v, arg!(dec(n))));
+            let limbs: Vec<Limb> = w.iter().map(|x| Limb(*x)).collect();
+            agree(vec![BoxedUint::from(&limbs[..]), BoxedUint::from_words(w.clone())], |b| bhexlen(b))
+        }
+        ("c16.b.words", [n, v]) => {
+            let x = arg!(boxed(v, arg!(dec(n))));
+            let forms: Vec<Vec<Word>> = vec![
+                x.to_words().to_vec(),
+                x.as_words().to_vec(),
+                AsRef::<[Word]>::as_ref(&x).to_vec(),
+                x.to_limbs().iter().map(|l| l.0).collect(),
+                x.as_limbs().iter().map(|l| l.0).collect(),
+                x.clone().into_limbs().iter().map(|l| l.0).collect(),
+            ];
+            agree(forms, |w| words_tok(w))
+        }
+        _ => return None,
+    })
+}
+
+fn limb_op(op: &str, a: &[&str]) -> Option<String> {
+    Some(match (op, a) {
+        ("c16.l.to_be_bytes", [w]) => bytes_tok(&Encoding::to_be_bytes(&arg!(limb(w)))),
+        ("c16.l.to_le_bytes", [w]) => bytes_tok(&Encoding::to_le_bytes(&arg!(limb(w)))),
+        ("c16.l.from_be_bytes", [b]) => {
+            let r: [u8; 8] = arg!(arg!(bytes(b)).as_slice().try_into().ok());
+            lhex(<Limb as Encoding>::from_be_bytes(r))
+        }
+        ("c16.l.from_le_bytes", [b]) => {
+            let r: [u8; 8] = arg!(arg!(bytes(b)).as_slice().try_into().ok());
+            lhex(<Limb as Encoding>::from_le_bytes(r))
+        }
+        ("c16.l.fmt", [kind, w]) => bytes_tok(arg!(fmt_kind(kind, &arg!(limb(w)))).as_bytes()),
+        _ => return None,
+    })
+}
+
+pub fn dispatch(op: &str, a: &[&str]) -> Option<String> {
+    match (op, a) {
+        ("c16.u.concat", [l, h, lo, hi]) => concat_dispatch(arg!(dec(l)), arg!(dec(h)), lo, hi),
+        ("c16.u.split", [l, h, x]) => split_dispatch(arg!(dec(l)), arg!(dec(h)), x),
+        ("c16.u.resize" | "c16.i.resize", [n, t, v]) => resize_dispatch(op, arg!(dec(n)), arg!(dec(t)), v),
+        ("c16.u.to_u64", [v]) => Some(format!("{:x}", u64::from(arg!(uint::<1>(v))))),
+        ("c16.u.to_u128", [v]) => Some(format!("{:x}", u128::from(arg!(uint::<2>(v))))),
+        ("c16.i.to_i64", [v]) => {
+            let x: I64 = arg!(int::<1>(v));
+            Some(format!("{:x}", i64::from(x) as u64))
+        }
+        ("c16.i.to_i128", [v]) => {
+            let x: I128 = arg!(int::<2>(v));
+            Some(format!("{:x}", i128::from(x) as u128))
+        }
+        _ if op.starts_with("c16.l.") => limb_op(op, a),
+        _ if op.starts_with("c16.b.") && op != "c16.b.from_uint" => boxed_op(op, a),
+        _ if !a.is_empty() => {
+            let n = arg!(dec(a[0]));
+            let rest = &a[1..];
+            with_n!(n, fixed, op, rest)
+        }
+        _ => None,
+    }
 }
